@@ -92,7 +92,7 @@ def plan_C16(tier, seed):
 def plan_C13(tier, seed):
     KL = q(tier, 6, 8)
     blocks = (sum(10 ** l for l in range(KL + 1)) + 99_999) // 100_000
-    nb = q(tier, 60_000, 3_000_000)
+    nb = q(tier, 240_000, 3_000_000)
     jobs = [
         Job("kernel-rel", "rel", "c13", blocks, {"mode": "kernel", "kernel_len": KL}, crash_is_violation=True),
         Job("kernel-chk", "chk", "c13", q(tier, 2, blocks), {"mode": "kernel", "kernel_len": KL}, crash_is_violation=True),
@@ -130,7 +130,7 @@ def plan_C13(tier, seed):
 
 
 def plan_C02(tier, seed):
-    n = q(tier, 48_000, 2_000_000)
+    n = q(tier, 96_000, 2_000_000)
     jobs = [
         Job("hist-chk", "chk", "c02", n, {"max_ops": 600, "max_stream": 1 << 20}, crash_is_violation=True),
         Job("hist-rel", "rel", "c02", n, {"max_ops": 600, "max_stream": 1 << 20}, crash_is_violation=True),
@@ -164,7 +164,7 @@ def plan_C02(tier, seed):
 
 
 def plan_C11(tier, seed):
-    n = q(tier, 1600, 60_000)
+    n = q(tier, 3200, 60_000)
     jobs = [
         Job("hist-chk", "chk", "c11", n, {"max_ops": 300, "max_faults": 24}, crash_is_violation=True),
         Job("hist-rel", "rel", "c11", n, {"max_ops": 300, "max_faults": 24}, crash_is_violation=True),
@@ -177,7 +177,9 @@ def plan_C11(tier, seed):
         "level": "exploration",
         "rule": "generated operation histories (5..300 ops: Write::write / write_all / write_all_defer_err of 0..3*capacity "
                 "bytes biased around capacity+-40, write::text::ascii_digits for all twelve integer types with boundary-heavy "
-                "values, buf_write_ptr(n)+advance_unchecked(m<=n), flush, flush_defer_err, check_io_error, drop) on a real "
+                "values, buf_write_ptr(n)+advance_unchecked(m<=n), flush, flush_defer_err, check_io_error, drop; plus boundary "
+                "pairs: fill the buffer so that exactly s in 0..45 bytes are spare, then write a maximal-length integer of a "
+                "random type / a slice of s-1..s+1 bytes / buf_write_ptr(s-1..s+1)) on a real "
                 "DeferredWriter. Each history runs once over a non-failing sink (accept-all / short writes / short+Interrupted) "
                 "and then once per sink write call j that occurred (all j up to 24, sampled beyond) with the sink failing (or "
                 "returning Ok(0)) at call j, sometimes with a second failure later. Judged after every operation from the "
@@ -192,14 +194,14 @@ def plan_C11(tier, seed):
         "primary_jobs": ["hist-chk"],
         "eval_counters": ["runs"],
         "floors": {"runs": q(tier, 20_000, 800_000), "sink_failures_injected": q(tier, 10_000, 400_000),
-                   "ints_via_cold_path": 1000, "buf_write_ptr_nonnull": 10_000, "int_type:i128": 1000, "int_type:u8": 1000,
+                   "ints_via_cold_path": 1000, "boundary_fills": 10_000, "buf_write_ptr_nonnull": 10_000, "int_type:i128": 1000, "int_type:u8": 1000,
                    "distinct_nontrivial": q(tier, 10_000, 300_000)},
         "assumptions": ["the writer's capacity is learnt through buf_write_ptr on a fresh writer, not assumed"],
     }
 
 
 def plan_C14(tier, seed):
-    nr, nw = q(tier, 16_000, 600_000), q(tier, 1600, 40_000)
+    nr, nw = q(tier, 32_000, 600_000), q(tier, 2400, 40_000)
     jobs = [
         # behavioural half, both assertion settings
         Job("reader-chk", "chk", "c14r", nr, {"max_ops": 400, "max_stream": 1 << 18}, crash_is_violation=True),
@@ -211,7 +213,7 @@ def plan_C14(tier, seed):
         Job("writer-asan", "asan", "c14w", q(tier, 800, 20_000), {"max_ops": 150}, crash_is_violation=True),
         Job("reader-miri", "miri-san", "c14r", q(tier, 32, 640), {"max_ops": 90, "max_stream": 2000}, nshards=16,
             crash_is_violation=True, wall_limit=3000),
-        Job("writer-miri", "miri-san", "c14w", q(tier, 16, 160), {"max_ops": 12}, nshards=16,
+        Job("writer-miri", "miri-san", "c14w", q(tier, 16, 160), {"max_ops": q(tier, 8, 12)}, nshards=16,
             crash_is_violation=True, wall_limit=3000),
     ]
     if tier == "thorough":
@@ -248,7 +250,7 @@ PARSER_FLOORS = {"parser:cnf": 100, "parser:wcnf": 100, "parser:gcnf": 100, "par
 
 
 def plan_C01(tier, seed):
-    n = q(tier, 160_000, 8_000_000)
+    n = q(tier, 320_000, 8_000_000)
     jobs = [
         Job("diff-chk", "chk", "c01", n, {"max_size": 3000}),
         Job("diff-rel", "rel", "c01", n, {"max_size": 3000}),
@@ -278,7 +280,7 @@ def plan_C01(tier, seed):
 
 
 def plan_C04(tier, seed):
-    n = q(tier, 24_000, 1_200_000)
+    n = q(tier, 48_000, 1_200_000)
     jobs = [
         Job("faults-chk", "chk", "c04", n, {"max_len": 2048}),
         Job("faults-rel", "rel", "c04", n, {"max_len": 2048}),
@@ -307,7 +309,7 @@ def plan_C04(tier, seed):
 
 
 def plan_C05(tier, seed):
-    n = q(tier, 1_600_000, 60_000_000)
+    n = q(tier, 3_200_000, 60_000_000)
     jobs = [
         Job("robust-chk", "chk", "c05", n, {"max_size": 3000}, cpu_limit=CPU_LIMIT["c05"], crash_is_violation=True),
         Job("robust-rel", "rel", "c05", n, {"max_size": 3000}, cpu_limit=CPU_LIMIT["c05"], crash_is_violation=True),
@@ -335,7 +337,7 @@ def plan_C05(tier, seed):
 
 
 def plan_C07(tier, seed):
-    n = q(tier, 400_000, 20_000_000)
+    n = q(tier, 800_000, 20_000_000)
     jobs = [
         Job("layout-chk", "chk", "c07", n, {}),
         Job("layout-rel", "rel", "c07", n, {}),
@@ -372,7 +374,7 @@ def plan_C07(tier, seed):
 
 
 def plan_C09(tier, seed):
-    n = q(tier, 300_000, 12_000_000)
+    n = q(tier, 600_000, 12_000_000)
     jobs = [
         Job("lines-chk", "chk", "c09", n, {}),
         Job("lines-rel", "rel", "c09", n, {}),
@@ -401,7 +403,7 @@ def plan_C09(tier, seed):
 
 
 def plan_C06(tier, seed):
-    n = q(tier, 600_000, 30_000_000)
+    n = q(tier, 1_200_000, 30_000_000)
     jobs = [
         Job("ref-chk", "chk", "c06", n, {}),
         Job("ref-rel", "rel", "c06", n, {}),
@@ -432,7 +434,7 @@ def plan_C06(tier, seed):
 
 
 def plan_C08(tier, seed):
-    nr, ne = q(tier, 400_000, 20_000_000), q(tier, 400_000, 20_000_000)
+    nr, ne = q(tier, 800_000, 20_000_000), q(tier, 800_000, 20_000_000)
     jobs = [
         Job("range-chk", "chk", "c08", nr, {"mode": "range"}),
         Job("range-rel", "rel", "c08", nr, {"mode": "range"}),
@@ -462,7 +464,7 @@ def plan_C08(tier, seed):
 
 
 def plan_C03(tier, seed):
-    n = q(tier, 800_000, 40_000_000)
+    n = q(tier, 1_200_000, 40_000_000)
     jobs = [
         Job("roundtrip-chk", "chk", "c03", n, {}),
         Job("roundtrip-rel", "rel", "c03", n, {}),
@@ -520,7 +522,9 @@ def plan_C10(tier, seed):
     return {
         "level": "exploration",
         "exhaustive": True,
-        "rule": "the complete grid {cnf, wcnf, gcnf, btor2, aag section readers, aig section readers} x chunk size "
+        "rule": "the complete grid {cnf, wcnf, gcnf, btor2, aag section readers, aig section readers - with each of the nine AIGER "
+                "sections (inputs, latches, outputs, bad, constraints, justice sizes+literals, fairness, gates, symbols) in turn "
+                "being the long one} x chunk size "
                 "{64,4096,16384,65536} x read size {1,7,chunk,random} x item profile {all small; one 1 MiB comment line early, "
                 "then small (text formats)} = 192 configurations; each streams N = %d MiB (rel build; chk build with less) "
                 "generated on the fly (never materialised, items dropped at once; 10^6..10^8 items; the AIGER headers declare "
@@ -531,14 +535,16 @@ def plan_C10(tier, seed):
                 "configuration is distinct and non-trivial (each streams at least 4x, all-small profiles at least 100x, its "
                 "bound)." % mib,
         "jobs": jobs, "primary_jobs": ["stream-rel"], "eval_counters": ["streams"],
-        "floors": {"streams": 2 * 192, "streams_100x_bound": 150, "items": q(tier, 500_000_000, 4_000_000_000),
-                   "distinct_nontrivial": 150},
+        "floors": dict({"streams": 2 * 192, "streams_100x_bound": 150, "items": q(tier, 500_000_000, 4_000_000_000),
+                        "distinct_nontrivial": 150},
+                       **{"aiger_long_section:" + k: 4 for k in ["inputs", "latches", "outputs", "bad", "constraints",
+                                                                  "justice", "fairness", "gates", "symbols"]}),
         "assumptions": ["N is bounded (64 MiB quick, 512 MiB / 1 GiB thorough); the claim for larger N rests on the bound not depending on N"],
     }
 
 
 def plan_C12(tier, seed):
-    n = q(tier, 64_000, 4_000_000)
+    n = q(tier, 128_000, 4_000_000)
     jobs = [
         Job("wellformed-chk", "chk", "c12", n, {"mode": "wellformed", "rounds": q(tier, 4, 64)}, cpu_limit=20,
             crash_is_violation=True),
